@@ -642,6 +642,27 @@ benign(
 """,
     runs=160,
 )
+B.append({"id": "benign/c16-buffered-pool-signing", "prop": "C16", "edits": [e for b in B if b["id"] == "benign/c01-buffered-pool-fork-safe" for e in b["edits"]], "runs": 800, "benign": True})
+assert len(B[-1]["edits"]) == 1
+benign(
+    "c03-buffered-pool",
+    "C03",
+    "bits/keys.py",
+    '    return (secrets.randbelow(bits.ecmath.SECP256K1_N - 1) + 1).to_bytes(32, "big")\n',
+    """    import threading as _th
+
+    _pool = key.__dict__.setdefault("_pool", {"buf": b"", "lock": _th.Lock()})
+    while True:
+        with _pool["lock"]:
+            if len(_pool["buf"]) < 32:
+                _pool["buf"] += secrets.token_bytes(256)
+            candidate = _pool["buf"][:32]
+            _pool["buf"] = _pool["buf"][32:]
+        if 0 < int.from_bytes(candidate, "big") < bits.ecmath.SECP256K1_N:
+            return candidate
+""",
+    runs=240,
+)
 benign(
     "c16-decimal-amounts",
     "C16",
